@@ -29,6 +29,9 @@ def _engine(name):
     if name == "bufworld":
         from .bufworld import BufWorld
         return BufWorld
+    if name == "acctworld":
+        from .acctworld import AcctWorld
+        return AcctWorld
     return World
 
 
